@@ -127,6 +127,14 @@ def allowed_values(framing, stream, chunks=None):
         a = model.abstract_request(pdu)
         if a is None:
             continue
+        # well-formed enough to prescribe a write: fixed-size requests exactly, multiple writes with a byte count that
+        # agrees with the quantity and a data field that really holds that many values (trailing extra bytes tolerated)
+        if pdu[0] in (5, 6, 22) and not a['wellformed']:
+            continue
+        if pdu[0] == 15 and not (a['byte_count'] == (a['quantity'] + 7) // 8 and a['data_len'] >= a['byte_count']):
+            continue
+        if pdu[0] in (16, 23) and not (a['byte_count'] == 2 * a['quantity'] and a['data_len'] >= a['byte_count']):
+            continue
         t = 'c' if pdu[0] in (5, 15) else 'h'
         if pdu[0] == 5:
             allowed[t].setdefault(a['address'], set()).update([0, 1])
